@@ -22,11 +22,14 @@
 (*           EPOLLOUT is reported iff at most LowWater bytes are queued     *)
 (*           (Linux unix_writable: 4 * wmem <= sndbuf), which is NOT the    *)
 (*           condition under which write() succeeds (free space).           *)
-(*  adapter  io.rs: IoDispatcher{interest, waker, last_readiness} with ONE  *)
-(*           interest and ONE waker slot; register_waker = store both and   *)
-(*           reregister(fd, interest, OneShot); process_events = store the  *)
-(*           readiness, take + wake the waker; readiness() consumes         *)
-(*           last_readiness entirely; new / drop / into_inner.              *)
+(*  adapter  io.rs: IoDispatcher{interest, read_waker, write_waker,         *)
+(*           last_readiness}: register_waker stores the waker in the slot   *)
+(*           of its direction, interest = the directions that have a waker, *)
+(*           reregister(fd, interest, OneShot); process_events MERGES the    *)
+(*           readiness, takes + wakes the waker of every reported           *)
+(*           direction and returns Reregister (the loop renews the one-shot *)
+(*           registration) while a waker is still stored; take_readiness(x) *)
+(*           consumes only the bit asked for; new / drop / into_inner.      *)
 (*  tasks    futures living in a calloop Executor: a task is a sequence of  *)
 (*           operations read(n) / write(n) (ONE successful poll_read /      *)
 (*           poll_write completes the operation, so every sequence of       *)
@@ -37,11 +40,12 @@
 (*           adapters and the executor's ping, in ANY order) then one       *)
 (*           process_events per event; the executor runs its queue.         *)
 (*                                                                         *)
-(* Sets of "r"/"w" stand for Interest / Readiness (EMPTY = {}).  The waker  *)
-(* slot is modelled as a pair wk = [r |-> .., w |-> ..] so that the         *)
-(* candidate fix (one waker per direction) is a variant of the same model;  *)
-(* the code as it is keeps at most one of the two set (register_waker       *)
-(* overwrites the single slot).                                             *)
+(* Sets of "r"/"w" stand for Interest / Readiness (EMPTY = {}); the two      *)
+(* waker slots are wk = [r |-> .., w |-> ..].  Readiness.error is never set  *)
+(* by Poll::poll (EPOLLHUP/EPOLLERR are mapped to readable + writable) and   *)
+(* is not modelled.  The behaviour before commit 0061559 (ONE waker slot,    *)
+(* ONE interest, readiness() consuming everything) is the variant            *)
+(* "single_waker".                                                           *)
 (***************************************************************************)
 EXTENDS Naturals, Integers, Sequences, FiniteSets, TLC
 
@@ -63,12 +67,17 @@ CONSTANTS
   Variants     \* deliberately wrong behaviours (non-vacuity), {} = the code as it is in /repo:
                \*   "drop_keeps_fd"          kill() does not delete the fd from the poller (before f0ccfc5)
                \*   "failed_adapt_leaks"     a failing Async::new keeps the slot and O_NONBLOCK (before ae70cc3)
-               \*   "rearm_skipped"          register_waker stores the waker but skips reregister when the interest is unchanged
-               \*   "interest_not_switched"  register_waker keeps the interest of the first registration
+               \*   "failed_adapt_kills_other"  a failing adapt_io of an fd that already has a live adapter deletes THAT adapter's
+               \*                            registration from the poller (0061559, before 64b68d5)
+               \*   "rearm_skipped"          register_waker skips the reregister when the interest equals the one it handed to the
+               \*                            poller last time ("avoid a redundant epoll_ctl": forgets that one-shot disarmed it)
+               \*   "interest_not_switched"  register_waker leaves a non-empty interest as it is (the second direction is not added)
                \*   "flags_not_restored"     Drop does not restore the blocking mode
-               \*   "no_wake"                process_events stores the readiness but does not wake
-               \*   "fix_two_wakers"         CANDIDATE FIX: one waker per direction, interest = union, readiness() consumes only
-               \*                            the bit asked for, process_events re-arms the interest that is still waited for
+               \*   "no_wake"                process_events takes the wakers of the reported directions but does not wake them
+               \*   "single_waker"           before 0061559: ONE waker slot and ONE interest for both directions (register_waker
+               \*                            overwrites them), readiness() consumes last_readiness entirely, process_events
+               \*                            overwrites last_readiness, wakes the one waker and never renews the registration
+               \*   "no_rearm_after_event"   process_events returns Continue although a waker is still stored
 
 Ends  == {1, 2}
 File  == 3
@@ -79,7 +88,7 @@ Min(a, b) == IF a < b THEN a ELSE b
 TaskOrder == <<"R", "W", "S">>
 NoOp  == [k |-> "none", n |-> 0]
 NoWk  == [r |-> "none", w |-> "none"]
-Fix   == "fix_two_wakers" \in Variants
+Old   == "single_waker" \in Variants
 
 \* the waker of a task: branches of a joined task share it
 Wk(t) == IF Join THEN "J" ELSE t
@@ -91,7 +100,8 @@ WaitBit(k) == IF k \in {"read", "readable"} THEN "r" ELSE "w"
 (*            ever written into / read from q[e] (ghost)                    *)
 (*  closed[e] end e was closed (peer ends only)                            *)
 (*  nb[f]     O_NONBLOCK of fd f;  base[f] its value before any adapt_io    *)
-(*  ad[f]     adapter of fd f: live, interest, wk, last, was                *)
+(*  ad[f]     adapter of fd f: live, interest, wk, last, was (rint: the      *)
+(*            interest last handed to the poller, used by a variant only)   *)
 (*  ep[f]     epoll entry of fd f: reg, int, armed                         *)
 (*  occ       loop slots held by adapters                                  *)
 (*  ts/cur/nops/wait  per task: new | runnable | parked | done, current    *)
@@ -105,7 +115,7 @@ Init0(nb0) ==
   [q |-> [e \in Ends |-> <<>>], sent |-> [e \in Ends |-> <<>>], rcvd |-> [e \in Ends |-> <<>>],
    closed |-> [e \in Ends |-> FALSE],
    nb |-> nb0, base |-> nb0,
-   ad |-> [f \in Fds |-> [live |-> FALSE, interest |-> {}, wk |-> NoWk, last |-> {}, was |-> FALSE]],
+   ad |-> [f \in Fds |-> [live |-> FALSE, interest |-> {}, wk |-> NoWk, last |-> {}, was |-> FALSE, rint |-> {}]],
    ep |-> [f \in Fds |-> [reg |-> FALSE, int |-> {}, armed |-> FALSE]],
    occ |-> 0, nadapt |-> [f \in Fds |-> 0],
    ts |-> [t \in Tasks |-> "new"], cur |-> [t \in Tasks |-> NoOp], nops |-> [t \in Tasks |-> 0],
@@ -142,46 +152,59 @@ KWrite(s, e, syms) == [s EXCEPT !.q[Other(e)] = @ \o syms, !.sent[Other(e)] = @ 
 (* adapter: io.rs *)
 
 \* Async::new (:62).  The registration fails for a regular file (EPERM) and for an fd that is still in the epoll
-\* set (EEXIST); kill() on the error path also deletes the fd from the poller.
+\* set (EEXIST); the error path frees the slot and restores the flags, and leaves the poller alone (kill() deletes
+\* the fd only when this adapter registered it, :250).
 AdaptFails(s, f) == f = File \/ s.ep[f].reg
 DoAdapt(s, f) ==
   LET was == s.nb[f]
       s1  == [s EXCEPT !.nb[f] = TRUE, !.occ = @ + 1, !.nadapt[f] = @ + 1]
   IN IF ~AdaptFails(s, f)
-     THEN [s1 EXCEPT !.ad[f] = [live |-> TRUE, interest |-> {}, wk |-> NoWk, last |-> {}, was |-> was],
+     THEN [s1 EXCEPT !.ad[f] = [live |-> TRUE, interest |-> {}, wk |-> NoWk, last |-> {}, was |-> was, rint |-> {}],
                      !.ep[f] = [reg |-> TRUE, int |-> {}, armed |-> TRUE]]
      ELSE IF "failed_adapt_leaks" \in Variants THEN s1
-     ELSE [s1 EXCEPT !.occ = @ - 1, !.nb[f] = was,
-                     !.ep[f] = IF "drop_keeps_fd" \in Variants THEN @ ELSE [reg |-> FALSE, int |-> {}, armed |-> FALSE]]
+     ELSE [s1 EXCEPT !.occ = @ - 1, !.nb[f] = was]
 
-\* Drop (:192) and into_inner (:134, which takes the fd out and then drops the adapter): kill + restore the flags
+\* adapt_io of an fd that already has a live adapter (the same fd number: a borrow of it): EPOLL_CTL_ADD fails with
+\* EEXIST and NOTHING changes -- O_NONBLOCK was set already, the slot is freed again, the live adapter keeps its entry
+DoAdaptAgain(s, f) ==
+  LET s1 == [s EXCEPT !.nadapt[f] = @ + 1]
+      s2 == IF "failed_adapt_leaks" \in Variants THEN [s1 EXCEPT !.occ = @ + 1] ELSE s1
+  IN IF "failed_adapt_kills_other" \in Variants THEN [s2 EXCEPT !.ep[f] = [reg |-> FALSE, int |-> {}, armed |-> FALSE]] ELSE s2
+
+\* Drop (:199) and into_inner (:135, which takes the fd out and then drops the adapter): kill + restore the flags
 DoDrop(s, f) ==
   [s EXCEPT !.ad[f] = [@ EXCEPT !.live = FALSE, !.wk = NoWk],
             !.occ = @ - 1,
             !.ep[f] = IF "drop_keeps_fd" \in Variants THEN @ ELSE [reg |-> FALSE, int |-> {}, armed |-> FALSE],
             !.nb[f] = IF "flags_not_restored" \in Variants THEN @ ELSE s.ad[f].was]
 
-\* register_waker (:142): store interest + waker, reregister(fd, interest, OneShot)
+\* awaited_interest (:282): the directions that have a waker
+Awaited(wk) == {x \in Bits : wk[x] # "none"}
+
+\* register_waker (:143): store the waker in the slot of its direction, interest = awaited_interest(),
+\* reregister(fd, interest, OneShot)
 RegisterWaker(s, e, x, w) ==
-  LET int2 == IF Fix THEN s.ad[e].interest \cup {x}
-              ELSE IF "interest_not_switched" \in Variants /\ s.ad[e].interest # {} THEN s.ad[e].interest
-              ELSE {x}
-      wk2  == IF Fix THEN [s.ad[e].wk EXCEPT ![x] = w] ELSE [NoWk EXCEPT ![x] = w]
-      skip == "rearm_skipped" \in Variants /\ s.ad[e].interest = int2
+  LET wk2  == IF Old THEN [NoWk EXCEPT ![x] = w] ELSE [s.ad[e].wk EXCEPT ![x] = w]
+      int2 == IF "interest_not_switched" \in Variants /\ s.ad[e].interest # {} THEN s.ad[e].interest
+              ELSE IF Old THEN {x} ELSE Awaited(wk2)
+      skip == "rearm_skipped" \in Variants /\ s.ad[e].rint = int2
       s1   == [s EXCEPT !.ad[e].interest = int2, !.ad[e].wk = wk2]
   IN IF skip \/ ~s1.ep[e].reg THEN s1
-     ELSE [s1 EXCEPT !.ep[e] = [reg |-> TRUE, int |-> int2, armed |-> TRUE]]
+     ELSE [s1 EXCEPT !.ep[e] = [reg |-> TRUE, int |-> int2, armed |-> TRUE], !.ad[e].rint = int2]
 
-\* IoDispatcher::readiness (:261)
-TakeLast(s, e, x) == [s EXCEPT !.ad[e].last = IF Fix THEN @ \ {x} ELSE {}]
+\* IoDispatcher::take_readiness (:270): only the bit asked for is consumed
+TakeLast(s, e, x) ==
+  [s EXCEPT !.ad[e].last = IF Old THEN {} ELSE @ \ {x}]
 
-\* process_events (:267) for the readiness rd; returns the state and wakes through Wake below
+\* process_events (:291) for the readiness rd: the wakers that are woken
 WokenBy(s, e, rd) ==
   IF "no_wake" \in Variants THEN {}
-  ELSE IF Fix THEN {s.ad[e].wk[x] : x \in rd} \ {"none"}
-  ELSE {s.ad[e].wk[x] : x \in Bits} \ {"none"}
+  ELSE IF Old THEN {s.ad[e].wk[x] : x \in Bits} \ {"none"}
+  ELSE {s.ad[e].wk[x] : x \in rd} \ {"none"}
 
 \* waking a waker: the parked tasks that own it become runnable, in the order in which a joined task polls them
+\* (a waker whose task is not parked any more -- it was left behind by an operation that completed after a wake
+\* through the other direction -- wakes nothing: a spurious poll of a joined task re-polls its parked branches only)
 Wake(s, ws) ==
   LET T   == {t \in Tasks : Wk(t) \in ws /\ s.ts[t] = "parked"}
       seq == SelectSeq(TaskOrder, LAMBDA t : t \in T)
@@ -190,15 +213,17 @@ Wake(s, ws) ==
                     !.wait = [t \in Tasks |-> IF t \in T THEN "none" ELSE @[t]],
                     !.runq = @ \o seq, !.pinged = TRUE]
 
+\* process_events: merge the readiness, take the wakers of the reported directions, interest = awaited_interest();
+\* PostAction::Reregister (the loop calls reregister(fd, interest, OneShot)) while a waker is still stored
 \* (ProcessIoW: the wakers ws are woken -- the trace specification passes the set that was observed)
 ProcessIoW(s, e, rd, ws) ==
-  LET s1 == IF Fix
-            THEN LET left == s.ad[e].interest \ rd
-                 IN [s EXCEPT !.ad[e].last = @ \cup rd, !.ad[e].interest = left,
-                              !.ad[e].wk = [x \in Bits |-> IF x \in rd THEN "none" ELSE @[x]],
-                              !.ep[e] = IF left # {} /\ s.ep[e].reg THEN [reg |-> TRUE, int |-> left, armed |-> TRUE] ELSE @]
-            ELSE IF "no_wake" \in Variants THEN [s EXCEPT !.ad[e].last = rd]
-            ELSE [s EXCEPT !.ad[e].last = rd, !.ad[e].wk = NoWk]
+  LET s1 == IF Old THEN [s EXCEPT !.ad[e].last = rd, !.ad[e].wk = NoWk]
+            ELSE LET wk2  == [x \in Bits |-> IF x \in rd THEN "none" ELSE s.ad[e].wk[x]]
+                     left == Awaited(wk2)
+                     rearm == left # {} /\ s.ep[e].reg /\ "no_rearm_after_event" \notin Variants
+                 IN [s EXCEPT !.ad[e].last = @ \cup rd, !.ad[e].interest = left, !.ad[e].wk = wk2,
+                              !.ad[e].rint = IF rearm THEN left ELSE @,
+                              !.ep[e] = IF rearm THEN [reg |-> TRUE, int |-> left, armed |-> TRUE] ELSE @]
   IN Wake(s1, ws)
 ProcessIo(s, e, rd) == ProcessIoW(s, e, rd, WokenBy(s, e, rd))
 
@@ -348,6 +373,11 @@ Adapt(f) ==
   /\ st' = DoAdapt(st, f)
   /\ Ctl([op |-> "adapt", e |-> f]) /\ UNCHANGED script
 
+AdaptAgain(f) ==
+  /\ Idle /\ Budget /\ f \in Adapted /\ st.ad[f].live /\ st.nadapt[f] < MaxAdapt
+  /\ st' = DoAdaptAgain(st, f)
+  /\ Ctl([op |-> "adapt2", e |-> f]) /\ UNCHANGED script
+
 DropAd(f, how) ==
   /\ Idle /\ Budget /\ st.ad[f].live
   /\ \A t \in Tasks : AdOf[t] = f => st.ts[t] \in (IF Guided THEN {"done"} ELSE {"new", "done"})
@@ -413,7 +443,7 @@ TaskStep ==
   /\ UNCHANGED <<n, hist>>
 
 CtlNext ==
-  \/ \E f \in Fds : Adapt(f) \/ DropAd(f, "drop") \/ DropAd(f, "into_inner")
+  \/ \E f \in Fds : Adapt(f) \/ AdaptAgain(f) \/ DropAd(f, "drop") \/ DropAd(f, "into_inner")
   \/ IF Join THEN Spawn(Tasks) ELSE \E t \in Tasks : Spawn({t})
   \/ Dispatch
   \/ \E p \in Ends : PeerW(p) \/ PeerR(p) \/ PeerC(p)
